@@ -903,3 +903,273 @@ Proof.
   - rewrite (qmat_eqb_true_nth _ _ b p H1). apply M1; [exact Hlt|apply C1; exact Hlt].
   - rewrite (qmat_eqb_true_nth _ _ b p H2). apply M2; [exact Hlt|apply C2; exact Hlt].
 Qed.
+
+(* ---------- the tree cache of a catalog: every history of per-patch builds, complete and interrupted
+              catalog-wide builds leaves a cache from which the next catalog-wide build yields, for EVERY
+              patch, the trees of the requested binning ---------- *)
+Lemma increasing_qeq l1 l2 :
+  length l1 = length l2 -> (forall k, nth k l1 0 == nth k l2 0) -> increasing l1 -> increasing l2.
+Proof.
+  revert l2. induction l1 as [|a l1 IH]; intros [|b l2] Hl Hn Hi; simpl in Hl; try discriminate; [exact I|].
+  destruct l1 as [|a' l1]; destruct l2 as [|b' l2]; simpl in Hl; try discriminate; [exact I|].
+  destruct Hi as [Hab Hi]. split.
+  - pose proof (Hn 0%nat) as H0. pose proof (Hn 1%nat) as H1. simpl in H0, H1. rewrite <- H0, <- H1. exact Hab.
+  - apply IH; [simpl; lia| |exact Hi]. intro k. exact (Hn (S k)).
+Qed.
+
+Lemma binning_eqb_props cr' e' cr e :
+  binning_eqb (cr', e') (cr, e) = true ->
+  cr' = cr /\ length e' = length e /\ forall k, nth k e' 0 == nth k e 0.
+Proof.
+  unfold binning_eqb. simpl. rewrite andb_true_iff. intros [Hc He].
+  apply Bool.eqb_prop in Hc. apply qlist_eqb_nth in He. destruct He as [Hl Hn]. auto.
+Qed.
+
+Lemma binning_eqb_refl x : binning_eqb x x = true.
+Proof.
+  unfold binning_eqb. rewrite Bool.eqb_reflx. simpl. unfold qlist_eqb. apply list_eqb_refl.
+  intro q. apply Qeq_bool_iff. reflexivity.
+Qed.
+
+Lemma bkey_eqb_refl k : bkey_eqb k k = true.
+Proof. destruct k as [x|]; simpl; [apply binning_eqb_refl|reflexivity]. Qed.
+
+Lemma spec_group_eqb cr' e' cr e objs b :
+  binning_eqb (cr', e') (cr, e) = true -> spec_group cr' e' objs b = spec_group cr e objs b.
+Proof.
+  intro H. unfold spec_group. apply filter_ext. intro o.
+  apply Bool.eq_iff_eq_true. rewrite !memberb_spec. apply transport_sound. exact H.
+Qed.
+
+(* trees stored with a binning that EQUALS the requested one are the trees of the requested one *)
+Lemma trees_for_spec hasw k cr e objs :
+  increasing e -> (2 <= length e)%nat -> bkey_eqb k (Some (cr, e)) = true ->
+  length (trees_for hasw k objs) = nbins e /\
+  forall b, (b < nbins e)%nat ->
+    fst (nth b (trees_for hasw k objs) dummy_tree) = spec_count cr e objs b /\
+    snd (nth b (trees_for hasw k objs) dummy_tree) == spec_weight hasw cr e objs b.
+Proof.
+  intros Hi Hl Hk. destruct k as [[cr' e']|]; simpl in Hk; [|discriminate].
+  pose proof (binning_eqb_props _ _ _ _ Hk) as [Hc [Hlen Hn]].
+  assert (Hi' : increasing e').
+  { apply (increasing_qeq e e'); [lia| |exact Hi]. intro j. symmetry. apply Hn. }
+  assert (Hl' : (2 <= length e')%nat) by lia.
+  assert (Hnb : nbins e' = nbins e) by (unfold nbins; lia).
+  pose proof (trees_partition hasw cr' e' objs Hi' Hl') as [HL [HB _]].
+  simpl. split; [rewrite HL; exact Hnb|].
+  intros b Hb. rewrite <- Hnb in Hb. destruct (HB b Hb) as [_ [_ [Hf Hs]]].
+  unfold spec_count, spec_weight in *. rewrite (spec_group_eqb _ _ _ _ objs b Hk) in Hf, Hs.
+  split; assumption.
+Qed.
+
+(* ----- generic Forall2 helpers ----- *)
+Lemma forall2_nth {A B} (R : A -> B -> Prop) l1 l2 p d1 d2 :
+  Forall2 R l1 l2 -> (p < length l1)%nat -> R (nth p l1 d1) (nth p l2 d2).
+Proof.
+  intro H. revert p. induction H as [|x y l1 l2 Hxy H IH]; intros p Hp; simpl in Hp; [lia|].
+  destruct p as [|p]; simpl; [exact Hxy|]. apply IH. lia.
+Qed.
+
+Lemma forall2_length {A B} (R : A -> B -> Prop) l1 l2 : Forall2 R l1 l2 -> length l1 = length l2.
+Proof. intro H. induction H; simpl; [reflexivity|]. rewrite IHForall2. reflexivity. Qed.
+
+Lemma forall2_upd {A B} (R : A -> B -> Prop) l1 l2 k x d1 :
+  Forall2 R l1 l2 -> ((k < length l1)%nat -> R (nth k l1 d1) x) -> Forall2 R l1 (upd l2 k x).
+Proof.
+  intro H. revert k. induction H as [|a b l1 l2 Hab H IH]; intros k Hk; simpl; [constructor|].
+  destruct k as [|k]; simpl.
+  - constructor; [apply Hk; simpl; lia|exact H].
+  - constructor; [exact Hab|]. apply IH. intro Hlt. apply Hk. simpl. lia.
+Qed.
+
+(* ----- the invariant ----- *)
+Lemma patch_build_valid hasw force k objs c :
+  entry_valid hasw objs c -> entry_valid hasw objs (patch_build hasw force k objs c).
+Proof. intro H. unfold patch_build. destruct (needs_rebuild force k c); simpl; [reflexivity|exact H]. Qed.
+
+Lemma cache_init_valid hasw patches : cache_valid hasw patches (cache_init (length patches)).
+Proof. unfold cache_valid, cache_init. induction patches as [|o ps IH]; simpl; constructor; [exact I|exact IH]. Qed.
+
+Lemma cat_build_valid hasw force k patches c :
+  cache_valid hasw patches c -> cache_valid hasw patches (cat_build hasw force k patches c).
+Proof.
+  unfold cache_valid. intro H. induction H as [|o e ps cs Hoe H IH]; simpl; constructor; [|exact IH].
+  apply patch_build_valid. exact Hoe.
+Qed.
+
+Lemma cat_build_intr_valid hasw force k patches c fuel :
+  cache_valid hasw patches c -> cache_valid hasw patches (cat_build_intr hasw force k patches c fuel).
+Proof.
+  unfold cache_valid. intro H. revert fuel. induction H as [|o e ps cs Hoe H IH]; intro fuel; simpl; [constructor|].
+  destruct (needs_rebuild force k e).
+  - destruct fuel as [|f]; constructor; simpl; auto.
+  - constructor; [exact Hoe|apply IH].
+Qed.
+
+Lemma patches_build_valid hasw force k patches c ids :
+  cache_valid hasw patches c -> cache_valid hasw patches (patches_build hasw force k patches c ids).
+Proof.
+  unfold cache_valid, patches_build. revert c. induction ids as [|p ids IH]; intros c H; simpl; [exact H|].
+  apply IH. apply (forall2_upd _ _ _ _ _ []); [exact H|]. intro Hp.
+  apply patch_build_valid. apply forall2_nth; assumption.
+Qed.
+
+Lemma hstep_valid hasw patches c s :
+  cache_valid hasw patches c -> cache_valid hasw patches (hstep_apply hasw patches c s).
+Proof.
+  intro H. destruct s as [ids force k|force k|fuel force k]; simpl.
+  - apply patches_build_valid; exact H.
+  - apply cat_build_valid; exact H.
+  - apply cat_build_intr_valid; exact H.
+Qed.
+
+Theorem run_history_valid hasw patches hist c :
+  cache_valid hasw patches c -> cache_valid hasw patches (run_history hasw patches hist c).
+Proof.
+  unfold run_history. revert c. induction hist as [|s hist IH]; intros c H; simpl; [exact H|].
+  apply IH. apply hstep_valid. exact H.
+Qed.
+
+(* ----- a catalog-wide build on a valid cache: every patch ends with the requested binning ----- *)
+Definition entry_final (hasw : bool) (k : bkey) (objs : list obj) (e : centry) : Prop :=
+  exists k' t, e = Some (k', t) /\ bkey_eqb k' k = true /\ t = trees_for hasw k' objs.
+
+Lemma cat_build_final hasw force k patches c :
+  cache_valid hasw patches c -> Forall2 (entry_final hasw k) patches (cat_build hasw force k patches c).
+Proof.
+  unfold cache_valid. intro H. induction H as [|o e ps cs Hoe H IH]; simpl; constructor; [|exact IH].
+  unfold patch_build. destruct (needs_rebuild force k e) eqn:E.
+  - exists k, (trees_for hasw k o). split; [reflexivity|]. split; [apply bkey_eqb_refl|reflexivity].
+  - destruct e as [[k' t]|]; simpl in E; [|discriminate].
+    apply orb_false_iff in E. destruct E as [_ E]. apply negb_false_iff in E.
+    exists k', t. split; [reflexivity|]. split; [exact E|exact Hoe].
+Qed.
+
+(* THE statement: whatever the history of the cache (any sequence of per-patch builds on any patches,
+   complete and interrupted catalog-wide builds, with any binnings, closed sides, force flags), after
+   Catalog.build_trees(edges, closed) every patch holds trees in which each object sits in exactly
+   the bin of `member` for the REQUESTED edges and closed side *)
+Theorem cache_history_member hasw patches c0 hist force cr edges :
+  increasing edges -> (2 <= length edges)%nat -> cache_valid hasw patches c0 ->
+  let c := cat_build hasw force (Some (cr, edges)) patches (run_history hasw patches hist c0) in
+  length c = length patches /\
+  forall p, (p < length patches)%nat ->
+    exists k t, nth p c None = Some (k, t) /\ bkey_eqb k (Some (cr, edges)) = true /\
+      length t = nbins edges /\
+      forall b, (b < nbins edges)%nat ->
+        fst (nth b t dummy_tree) = spec_count cr edges (nth p patches []) b /\
+        snd (nth b t dummy_tree) == spec_weight hasw cr edges (nth p patches []) b.
+Proof.
+  intros Hi Hl Hv c.
+  pose proof (cat_build_final hasw force (Some (cr, edges)) patches _ (run_history_valid hasw patches hist c0 Hv)) as HF.
+  fold c in HF. split; [symmetry; exact (forall2_length _ _ _ HF)|].
+  intros p Hp. pose proof (forall2_nth _ _ _ p [] None HF Hp) as [k [t [E [Hk Ht]]]].
+  exists k, t. split; [exact E|]. split; [exact Hk|]. subst t.
+  apply trees_for_spec; assumption.
+Qed.
+
+(* the same for a build without binning (unknown sample of a cross-correlation): one tree over all
+   objects of the patch, whatever binned trees the patch held before *)
+Theorem cache_history_unbinned hasw patches c0 hist force :
+  cache_valid hasw patches c0 ->
+  let c := cat_build hasw force None patches (run_history hasw patches hist c0) in
+  length c = length patches /\
+  forall p, (p < length patches)%nat -> nth p c None = Some (None, [make_tree hasw (nth p patches [])]).
+Proof.
+  intros Hv c.
+  pose proof (cat_build_final hasw force None patches _ (run_history_valid hasw patches hist c0 Hv)) as HF.
+  fold c in HF. split; [symmetry; exact (forall2_length _ _ _ HF)|].
+  intros p Hp. pose proof (forall2_nth _ _ _ p [] None HF Hp) as [k [t [E [Hk Ht]]]].
+  destruct k as [x|]; simpl in Hk; [discriminate|]. subst t. exact E.
+Qed.
+
+(* the measurement reads these trees: sum_weights[b, p] is the spec's weight sum, after every history *)
+Corollary cache_history_sum_weights hasw patches c0 hist force cr edges b p :
+  increasing edges -> (2 <= length edges)%nat -> cache_valid hasw patches c0 ->
+  (b < nbins edges)%nat -> (p < length patches)%nat ->
+  let c := cat_build hasw force (Some (cr, edges)) patches (run_history hasw patches hist c0) in
+  nth p (nth b (sum_weights_of (nbins edges) (cache_trees c)) []) 0 ==
+  spec_weight hasw cr edges (nth p patches []) b.
+Proof.
+  intros Hi Hl Hv Hb Hp c.
+  pose proof (cache_history_member hasw patches c0 hist force cr edges Hi Hl Hv) as [HL HP]. fold c in HL, HP.
+  destruct (HP p Hp) as [k [t [E [_ [_ HB]]]]].
+  unfold sum_weights_of, cache_trees. rewrite nth_map_seq by exact Hb. rewrite map_map.
+  rewrite (nth_map_default _ c p None 0) by (rewrite HL; exact Hp).
+  rewrite E. apply (HB b Hb).
+Qed.
+
+(* the statement has content: a build that trusts the binning stored with the FIRST patch keeps, after
+   a rebuild that reached only that patch, the old closed side in the other patches; a redshift on
+   an inner edge then sits in the wrong bin *)
+Theorem cache_first_patch_refuted :
+  exists patches hist edges,
+    increasing edges /\ (2 <= length edges)%nat /\
+    let k := Some (false, edges) in
+    let pre := run_history true patches hist (cache_init (length patches)) in
+    (* the interrupted rebuild: patch 0 rebuilt, patch 1 hit while written, patch 2 not reached *)
+    map (option_map fst) pre = [Some k; None; Some (Some (true, edges))] /\
+    nth 2 (cat_build_first true false k patches pre) None = Some (Some (true, edges), [(1%nat, 1); (0%nat, 0)]) /\
+    nth 2 (cat_build true false k patches pre) None = Some (k, [(0%nat, 0); (1%nat, 1)]) /\
+    spec_trees true false edges (nth 2 patches []) = [(0%nat, 0); (1%nat, 1)].
+Proof.
+  exists [[(1#2, 1)]; [(3#4, 1)]; [(1#2, 1)]],
+         [HCatalog false (Some (true, [1#4; 1#2; 1])); HInterrupted 1 false (Some (false, [1#4; 1#2; 1]))],
+         [1#4; 1#2; 1].
+  split; [simpl; repeat split; reflexivity|]. split; [simpl; lia|].
+  vm_compute. repeat split; reflexivity.
+Qed.
+
+(* ----- soundness of the checker ----- *)
+Lemma code_from_zero w flags : (0 < w)%nat -> code_from w flags = 0%nat -> forallb (fun b : bool => b) flags = true.
+Proof.
+  revert w. induction flags as [|f r IH]; intros w Hw H; [reflexivity|].
+  destruct f.
+  - simpl. apply (IH (2 * w)%nat); [lia|]. exact H.
+  - exfalso. change (code_from w (false :: r)) with (w + code_from (2 * w) r)%nat in H. lia.
+Qed.
+
+Lemma list_eqb_nth {A} (eqb : A -> A -> bool) l1 l2 d1 d2 :
+  list_eqb eqb l1 l2 = true ->
+  length l1 = length l2 /\ forall p, (p < length l1)%nat -> eqb (nth p l1 d1) (nth p l2 d2) = true.
+Proof.
+  revert l2. induction l1 as [|x l1 IH]; intros [|y l2] H; simpl in H; try discriminate.
+  - split; [reflexivity|]. intros p Hp. simpl in Hp. lia.
+  - apply andb_true_iff in H. destruct H as [Hxy H]. destruct (IH _ H) as [Hl Hn].
+    split; [simpl; lia|]. intros [|p] Hp; simpl in *; [exact Hxy|apply Hn; lia].
+Qed.
+
+Theorem cache_case_sound hasw patches hist force cr edges obs_pre obs_post ih im :
+  c10_cache_case hasw patches hist force (Some (cr, edges)) edges obs_pre obs_post ih im = 0%nat ->
+  increasing edges /\ (2 <= length edges)%nat /\ length obs_post = length patches /\
+  forall p, (p < length patches)%nat ->
+    exists k t, nth p obs_post None = Some (k, t) /\ bkey_eqb k (Some (cr, edges)) = true /\
+      forall b, (b < nbins edges)%nat ->
+        fst (nth b t dummy_tree) = spec_count cr edges (nth p patches []) b /\
+        snd (nth b t dummy_tree) == spec_weight hasw cr edges (nth p patches []) b.
+Proof.
+  unfold c10_cache_case. cbv zeta. intro H. apply code_from_zero in H; [|lia].
+  cbn [forallb] in H. rewrite !andb_true_iff in H.
+  destruct H as [_ [H1 [[H2 H2l] [_ [_ [_ [_ [_ [[[[[_ _] Hi] Hl] _] _]]]]]]]]].
+  apply increasingb_spec in Hi. apply Nat.leb_le in Hl. apply Nat.eqb_eq in H2l.
+  split; [exact Hi|]. split; [exact Hl|]. split; [exact H2l|].
+  intros p Hp.
+  destruct (list_eqb_nth _ _ _ None None H1) as [_ HN].
+  assert (Hp' : (p < length (map entry_trees obs_post))%nat) by (rewrite map_length, H2l; exact Hp).
+  specialize (HN p Hp').
+  rewrite (nth_map_default entry_trees obs_post p None None) in HN by (rewrite H2l; exact Hp).
+  rewrite (nth_map_default _ patches p [] None) in HN by exact Hp.
+  rewrite forallb_forall in H2.
+  assert (Hin : In (nth p obs_post None) obs_post) by (apply nth_In; rewrite H2l; exact Hp).
+  specialize (H2 _ Hin).
+  destruct (nth p obs_post None) as [[k t]|] eqn:E; simpl in H2; [|discriminate].
+  exists k, t. split; [reflexivity|]. split; [exact H2|].
+  intros b Hb. simpl in HN. unfold trees_eqb in HN.
+  destruct (list_eqb_nth _ _ _ dummy_tree dummy_tree HN) as [HL HB].
+  assert (Hlen : length (spec_trees hasw cr edges (nth p patches [])) = nbins edges)
+    by (unfold spec_trees; rewrite map_length, seq_length; reflexivity).
+  assert (Hb' : (b < length t)%nat) by (rewrite HL, Hlen; exact Hb).
+  specialize (HB b Hb'). unfold spec_trees in HB. rewrite nth_map_seq in HB by exact Hb.
+  unfold tree_eqb in HB. simpl in HB. apply andb_true_iff in HB. destruct HB as [Hf Hs].
+  apply Nat.eqb_eq in Hf. apply Qeq_bool_iff in Hs. split; assumption.
+Qed.
